@@ -348,10 +348,42 @@ func verifCCCommitHash(k string) chainhash.Hash {
 }
 
 // verifCCOutputIndex is the output index of htlc number pos (position in the
-// case's HTLC list) on any commitment that carries it as a real output.
-func verifCCOutputIndex(pos int) int32 { return int32(pos + 2) }
+// case's HTLC list) on commitment k. Output indexes are a property of each
+// commitment transaction: the commitments carry different subsets of the HTLCs
+// as real outputs and order them differently, so the same index denotes
+// different HTLCs on different commitments. Here: outputs 0/1 are the commit
+// and anchor outputs, HTLC outputs follow in ascending list order on our
+// commitment, in descending order on the peer's current one and rotated by one
+// on the peer's pending one.
+func verifCCOutputIndex(htlcs []verifCCHtlc, k string, pos int) int32 {
+	var with []int
+	for i := range htlcs {
+		if htlcs[i].hasOutput(k) {
+			with = append(with, i)
+		}
+	}
+	rank := -1
+	for r, i := range with {
+		if i == pos {
+			rank = r
+		}
+	}
+	if rank < 0 {
+		return -1
+	}
+	n := len(with)
+	switch k {
+	case "remote":
+		rank = n - 1 - rank
+	case "pending":
+		rank = (rank + 1) % n
+	}
 
-func verifCCChanHTLC(h *verifCCHtlc, pos int, k string) channeldb.HTLC {
+	return int32(2 + rank)
+}
+
+func verifCCChanHTLC(htlcs []verifCCHtlc, pos int, k string) channeldb.HTLC {
+	h := &htlcs[pos]
 	out := channeldb.HTLC{
 		RHash:         h.hash(),
 		Amt:           lnwire.MilliSatoshi(h.AmtMsat),
@@ -362,7 +394,7 @@ func verifCCChanHTLC(h *verifCCHtlc, pos int, k string) channeldb.HTLC {
 		LogIndex:      uint64(pos),
 	}
 	if !h.dust(k) {
-		out.OutputIndex = verifCCOutputIndex(pos)
+		out.OutputIndex = verifCCOutputIndex(htlcs, k, pos)
 	}
 
 	return out
@@ -389,7 +421,7 @@ func verifCCSets(htlcs []verifCCHtlc,
 				continue
 			}
 			key := verifCCSetKey(k)
-			sets[key] = append(sets[key], verifCCChanHTLC(h, pos, k))
+			sets[key] = append(sets[key], verifCCChanHTLC(htlcs, pos, k))
 		}
 	}
 
@@ -940,6 +972,15 @@ func (o *verifCCOnion) ReconstructHopIterator(r io.Reader, rHash []byte,
 	}, nil
 }
 
+// --- HtlcNotifier (the package's own mock is not safe for the concurrent use
+// several resolvers make of it)
+
+type verifCCHtlcNotifier struct{}
+
+func (verifCCHtlcNotifier) NotifyFinalHtlcEvent(models.CircuitKey,
+	channeldb.FinalHtlcInfo) {
+}
+
 // --- ArbChannel
 
 type verifCCChannel struct{ p *verifCCProc }
@@ -1097,7 +1138,7 @@ func verifCCStart(t testing.TB, w *verifCCWorld, inc int,
 		},
 		Clock:        w.clock,
 		Sweeper:      p,
-		HtlcNotifier: &mockHTLCNotifier{},
+		HtlcNotifier: verifCCHtlcNotifier{},
 		PutFinalHtlcOutcome: func(_ lnwire.ShortChannelID, id uint64,
 			settled bool) error {
 
@@ -1416,7 +1457,7 @@ func (w *verifCCWorld) resolutions(k string, withCommit,
 		}
 		htlcOp := wire.OutPoint{
 			Hash:  commitHash,
-			Index: uint32(verifCCOutputIndex(pos)),
+			Index: uint32(verifCCOutputIndex(w.htlcs, k, pos)),
 		}
 		sats := int64(h.AmtMsat / 1000)
 		tag := fmt.Sprintf("%s-%s", k, h.name())
@@ -1798,7 +1839,9 @@ func (w *verifCCWorld) mine(t testing.TB, p *verifCCProc) {
 			}
 			op := wire.OutPoint{
 				Hash:  commitHash,
-				Index: uint32(verifCCOutputIndex(pos)),
+				Index: uint32(verifCCOutputIndex(
+					w.htlcs, confKind, pos,
+				)),
 			}
 			tx := &wire.MsgTx{
 				Version: 2,
